@@ -90,7 +90,15 @@ def rule_N1(ctx):
         if val is None:
             continue
         w = p.env.get("self.data['weights']")
-        if fresh_w:
+        ctx.check('C13.N5.weights', 'misfit: weights from the current noise '
+                  f'model (path {"with" if w is not None else "without"} a '
+                  'weight store)', w is not None,
+                  'a recomputed misfit re-uses weights stored earlier in the '
+                  'survey: an explicit assignment of noise_floor / '
+                  'relative_error / standard_deviation made in between is '
+                  'ignored (also by new simulations on that survey)',
+                  ctx.where(mm, mf[0]))
+        if w is not None:
             ctx.check('C13.N1.weights', 'misfit: weights = std^-2',
                       w is not None and equal(w, std**-2),
                       f'data weights are `{w}`, documented 1/std^2',
@@ -449,6 +457,15 @@ def rule_N4(ctx):
     ctx.anchor(len(sels) == 1, 'selection dictionary in select()')
     SEL = sels[0].targets[0].id
     m = find(f"{S}['data'][_k_] = self.data[_k_].sel(**{SEL})", lp[0])
+    mc = find(f"{S}['data'][_k_] = self.data[_k_].sel(**{SEL}).copy()",
+              lp[0]) or find(f"{S}['data'][_k_] = self.data[_k_].sel(**{SEL})"
+                             ".copy(deep=True)", lp[0])
+    ctx.check('C13.N4.copy', 'select: the selected data are copies',
+              len(mc) == 1, 'with an empty selection `.sel()` returns the '
+              "parent's own arrays: the selected survey shares observed data "
+              'and noise arrays with its parent (add_noise on the selection '
+              'changes the parent)', ctx.where(sm, lp[0]))
+    m = m or mc
     pairs = {'sources': 'src', 'receivers': 'rec', 'frequencies': 'freq'}
     for par, dim in pairs.items():
         ifs = [n for n in fn.body if isinstance(n, ast.If) and
